@@ -119,9 +119,12 @@ func ParseRtcpHeader(b []byte) RtcpHeader {
 	return h
 }
 
+// RtcpSrLength 一个不带report block的SR包的长度，包含包头
+const RtcpSrLength = 28
+
 // ParseSr rfc3550 6.4.1
 //
-// @param b rtcp包，包含包头
+// @param b rtcp包，包含包头，调用方保证长度>=RtcpSrLength
 func ParseSr(b []byte) Sr {
 	var s Sr
 	s.SenderSsrc = bele.BeUint32(b[4:])
